@@ -175,12 +175,8 @@ class TorchBackend(BaseBackend):
         ``t0`` (review §4.1) — the first stored sample landed at
         ``state_rec[t0, :]`` instead of ``state_rec[0, :]``.
 
-        DDE history updates from :code:`BaseBackend._solve_euler` are not
-        replicated here because :class:`DDEHistory.update` calls
-        :code:`y.copy()`, which is not a method on torch tensors.  A
-        tensor-native DDE+Euler path would need its own ring buffer; until
-        then DDE simulation on the torch backend should use ``solver='scipy'``
-        (see :meth:`_solve_scipy_dde` below).
+        Like :code:`BaseBackend._solve_euler`, a :class:`DDEHistory` passed as first argument is fed with the new
+        state after every step, so that delayed terms read the computed trajectory.
         """
         # preparations for fixed step-size integration
         idx = 0
@@ -194,7 +190,9 @@ class TorchBackend(BaseBackend):
         # solve ivp via forward Euler.  Storage cadence is driven by the
         # iteration counter `i` rather than the wall-clock step number — see
         # BaseBackend._solve_euler for the rationale (review §4.2).
+        from ..base.base_backend import DDEHistory
         t0_int = int(t0)
+        has_dde = len(args) > 0 and isinstance(args[0], DDEHistory)
         for i in range(steps):
             if i % store_step == 0:
                 state_rec[idx, :] = y
@@ -202,5 +200,8 @@ class TorchBackend(BaseBackend):
             step = i + t0_int
             rhs = func(step, y, *args)
             y += dt * rhs
+            if has_dde:
+                # feed the history after every accepted step (the row assignment in DDEHistory.update copies the tensor)
+                args[0].update((i + 1) * dt, y.detach().numpy())
 
         return state_rec.numpy()
